@@ -465,6 +465,13 @@ func be(n int, v int64) []byte {
 	return b
 }
 
+// millisecond timestamps: the bounds of int64 nanoseconds (time.Time.UnixNano / time.Unix(0, ns): 1677-09-21 ..
+// 2262-04-11) and of int64 microseconds, +-2^53 (float64), years 0 / 1 / 1600 / 9999 / 10000, the ends of int64 (the
+// generator adds -1 / 0 / +1 with wrap-around)
+var msPool = []int64{9223372036854, -9223372036854, 9223372036855, -9223372036855, 9223372036854775, -9223372036854775,
+	1 << 53, -(1 << 53), -62167219200000, -62135596800000, -11676096000000, 253402300799999, 253402300800000,
+	9223372036854775807, -9223372036854775808, 9223372036854775, 4294967296000, -4294967296000, 999, -999}
+
 var int64Pool = []int64{0, 1, -1, 127, 128, -128, -129, 255, 256, 32767, 32768, -32768, 65535, 2147483647, -2147483648, 2147483648,
 	4294967295, 9223372036854775807, -9223372036854775808, 1000, 1700000000000, -62135596800000}
 
@@ -537,8 +544,12 @@ func (g *gen) encVal(proto int, t *typeDesc) []byte {
 		case idBigint, idCounter, idTime:
 			return be(8, g.i64())
 		case idTimestamp:
-			if r.Bool() {
+			switch r.Intn(3) {
+			case 0:
 				return be(8, int64(r.Intn(2000000000))*1000+int64(r.Intn(1000)))
+			case 1:
+				// milliseconds at the magnitudes where a conversion through another unit goes wrong
+				return be(8, msPool[r.Intn(len(msPool))]+int64(r.Intn(3))-1)
 			}
 			return be(8, g.i64())
 		case idInt, idDate:
